@@ -1,8 +1,14 @@
 #!/bin/sh
-# usage: tools/trymut.sh <patch.diff> <PROPERTY> [check args]   (development aid: apply a mutation to /repo, run a check, undo)
-patch=$1; prop=$2; shift 2
-cd /repo || exit 2
-if [ -n "$(git status --porcelain)" ]; then echo "/repo not clean"; exit 2; fi
-git apply "$patch" || { echo "patch does not apply"; exit 2; }
-/verif/check "$prop" "$@" 2>&1 | grep -E "VIOLATION|KNOWN-FINDING|CHECK-PROBLEM|tier=|counterexample|SPURIOUS" | head -${TRYMUT_LINES:-12}
-git -C /repo checkout -- . && git -C /repo clean -fdq
+# usage: tools/trymut.sh <patch.diff> <PROPERTY> [check args]
+# Development aid: applies a mutation to a scratch worktree of /repo (outside /repo and /verif), runs a check against
+# it with evidence redirected to a scratch directory, and removes both afterwards. /repo itself is not touched.
+patch=$(realpath "$1"); prop=$2; shift 2
+wt=$(mktemp -d /tmp/mutwt-XXXXXX); ev=$(mktemp -d /tmp/mutev-XXXXXX)
+git -C /repo worktree add --detach -q "$wt/r" HEAD || exit 2
+if ! git -C "$wt/r" apply "$patch"; then echo "patch does not apply"; git -C /repo worktree remove --force "$wt/r"; rm -rf "$wt" "$ev"; exit 2; fi
+VERIF_REPO="$wt/r" VERIF_EVDIR="$ev" /verif/check "$prop" "$@" > "$ev/out.txt" 2>&1
+rc=$?
+echo "exit=$rc violations=$(grep -c '^VIOLATION' "$ev/out.txt") known=$(grep -c '^KNOWN-FINDING' "$ev/out.txt")"
+grep -E "counterexample|CHECK-PROBLEM|load error|cannot load" "$ev/out.txt" | cut -c1-300 | head -${TRYMUT_LINES:-2}
+git -C /repo worktree remove --force "$wt/r"; rm -rf "$wt" "$ev"
+exit $rc
